@@ -36,5 +36,10 @@ func File(file string) iter.Seq2[*BED, error] {
 			return
 		}
 		defer f.Close()
+		for b, err := range Reader(f) {
+			if !yield(b, err) {
+				break
+			}
+		}
 	}
 }
